@@ -159,6 +159,24 @@ pub fn gen_line(e: &mut Entropy, corp: &corpus::Corpus) -> (String, Vec<&'static
             ];
             P[e.pick(P.len())].to_string()
         }
+        18 if e.pick(3) == 0 => {
+            // a valid FEN in its 4-field form (from_fen accepts it with default counters)
+            cl.push("position:4-field-fen");
+            let fen = if corp.len() == 0 { Pos::startpos().to_fen4() } else { corp.positions[e.pick(corp.len())].to_fen4() };
+            match e.pick(3) {
+                0 => format!("position fen {fen}"),
+                1 => format!("position fen {fen} moves"),
+                _ => {
+                    let p = Pos::from_fen(&fen).unwrap();
+                    let l = p.legal_moves();
+                    if l.is_empty() {
+                        format!("position fen {fen} moves a1a1")
+                    } else {
+                        format!("position fen {fen} moves {}", l[e.pick(l.len())].uci())
+                    }
+                }
+            }
+        }
         18 => {
             cl.push("position:fen-then-bad-moves");
             let fen = if corp.len() == 0 { Pos::startpos().to_fen() } else { corp.fens[e.pick(corp.len())].clone() };
@@ -371,5 +389,5 @@ pub fn replay(ctx: &Ctx, case: &Value) -> Report {
 }
 
 pub const LEVEL: &str = "exploration";
-pub const RULE: &str = "sessions of 1..25 lines against the real engine binary, each line drawn from a grammar over the UCI vocabulary: the eight commands with well-formed arguments (go budgets that end by themselves), go keywords with the value dropped / duplicated / reordered / replaced by junk (negative, 1e3, 0x10, 40-digit, words, empty, non-ASCII digits), go flags in odd places, setoption with name/value in every order and multiplicity, position with unknown kind / missing 'moves' / empty or illegal or malformed move lists (FEN arguments are always valid 6-field strings), unknown words, blank lines, tabs, 10 kB lines, non-ASCII text; plus fixed cases: end-of-input at the start, after a line, in the middle of a line, and bytes that are not valid UTF-8. Ending: stop + isready (readyok within 2 s, main thread not panicked) + quit (exit status 0 within 2 s), or end-of-input after a generated line (exit within 2 s). A search-thread panic is C09's subject and ignored here. Non-trivial = session containing at least one malformed line; distinct by (text, ending).";
+pub const RULE: &str = "sessions of 1..25 lines against the real engine binary, each line drawn from a grammar over the UCI vocabulary: the eight commands with well-formed arguments (go budgets that end by themselves), go keywords with the value dropped / duplicated / reordered / replaced by junk (negative, 1e3, 0x10, 40-digit, words, empty, non-ASCII digits), go flags in odd places, setoption with name/value in every order and multiplicity, position with unknown kind / missing 'moves' / empty or illegal or malformed move lists (FEN arguments are always valid FEN, in 6-field and in 4-field form), unknown words, blank lines, tabs, 10 kB lines, non-ASCII text; plus fixed cases: end-of-input at the start, after a line, in the middle of a line, and bytes that are not valid UTF-8. Ending: stop + isready (readyok within 2 s, main thread not panicked) + quit (exit status 0 within 2 s), or end-of-input after a generated line (exit within 2 s). A search-thread panic is C09's subject and ignored here. Non-trivial = session containing at least one malformed line; distinct by (text, ending).";
 pub const ASSUMPTIONS: &[&str] = &["FEN arguments are valid (the statement's assumption)", "2 s stands in for 'promptly'; 8 engine processes run concurrently"];
